@@ -13,6 +13,23 @@ import (
 
 func SeekCommonAncestor(db objects.Store, commits ...[]byte) (baseCommit []byte, err error) {
 	n := len(commits)
+	// an input that is an ancestor of every other input is the base: the lock-step
+	// walk below can step past it when the other side reaches its parents first
+	for i, c := range commits {
+		isBase := n > 1
+		for j, d := range commits {
+			if i == j {
+				continue
+			}
+			if ok, err := IsAncestorOf(db, c, d); err != nil || !ok {
+				isBase = false
+				break
+			}
+		}
+		if isBase {
+			return c, nil
+		}
+	}
 	qs := make([]*CommitsQueue, n)
 	bases := make([][]byte, n)
 	for i, sum := range commits {
